@@ -9,6 +9,7 @@ spec/agg/WorkerAbs.tla     property layer of the worker sink (sends, merges, flu
 spec/agg/Worker.tla        channel + worker loop + handles; TLC: refines WorkerAbs for every interleaving,
                            terminates under fairness (BreakOnDisconnect = FALSE is the loop of defect D5)
 spec/agg/WorkerTrace.tla   trace validation of recorded multi-producer executions against WorkerAbs
+spec/agg/WorkerCountTrace.tla  counting form of WorkerAbs for high-rate / short-interval recorded runs
 spec/agg/MutexAbs.tla      property layer of the mutex-shared sink (merges racing closes of the parent entry)
 spec/agg/MutexSinkRace.tla lock-level model of MutexSink merge / close; TLC: refines MutexAbs for every interleaving
 spec/agg/MutexTrace.tla    trace validation of recorded merge-vs-close races against MutexAbs
@@ -222,6 +223,52 @@ def run_T_mutex(chk, prop, scen, tag="mx"):
 
 
 # --------------------------------------------------------------------------------------------
+# T, worker sink under sustained load with a very short flush interval (counting form)
+# --------------------------------------------------------------------------------------------
+def gen_load(rng, n):
+    out = []
+    for i in range(n):
+        np_ = rng.randint(2, 3)
+        prods = []
+        for p in range(np_):
+            cnt = rng.choice([150_000, 250_000, 400_000])
+            prods.append({"n": cnt, "flush_after": rng.choice([0, 0, cnt // 2, cnt]), "via_guard": rng.random() < 0.25})
+        out.append({"id": i + 1, "producers": prods, "nk": rng.randint(1, 4), "interval_us": rng.choice([50, 100, 200]),
+                    "seed": rng.randrange(1 << 30), "final_flush": rng.random() < 0.5})
+    return out
+
+
+def run_T_load(chk, prop, scen, tag="load"):
+    sp = os.path.join(chk.dir, f"{tag}-scen.ndjson")
+    tp = os.path.join(chk.dir, f"{tag}-trace.ndjson")
+    mp = os.path.join(chk.dir, f"{tag}-meta.ndjson")
+    vlib.write_ndjson(sp, scen)
+    vlib.run_bin("agg", ["load", "--scenarios", sp, "--out", tp, "--meta", mp], timeout=3600)
+
+    def on_reject(meta, v, lines):
+        ev = v.event if isinstance(v.event, dict) else {}
+        what = (f"recorded high-rate worker-sink execution {meta['id']} ({meta['sent']} entries from {len(meta['scenario']['producers'])} "
+                f"producers, flush interval {meta['scenario']['interval_us']} us; merged by the worker {meta['merged']}, emitted {meta['emitted']}, "
+                f"worker thread panicked: {meta['worker_panicked']}) is rejected by WorkerCountTrace: event {json.dumps(v.event)} "
+                f"(line {v.rel_line} of the scenario trace) cannot happen; state <<known sent, finished, flush needs, flushes done, handles, "
+                f"worker gone, panicked>> = {v.state}")
+        chk.violation(what, {"kind": "load", "scenario": meta["scenario"], "rejected_line": v.rel_line, "event": v.event,
+                             "trace": [json.loads(l) for l in lines]}, key=f"{prop}:load:{ev.get('ev')}")
+
+    acc = vlib.validate_scenarios(SPECD, "WorkerCountTrace", "WorkerCountTrace.cfg", tp, mp, on_reject, chunk=20, jobs=4, stats=chk.extra)
+    chk.traces += acc
+    st = chk.extra.setdefault("load_runs", {"scenarios": 0, "entries_sent": 0, "entries_emitted": 0, "worker_panics": 0})
+    for m in vlib.read_ndjson(mp):
+        st["scenarios"] += 1
+        st["entries_sent"] += m["sent"]
+        st["entries_emitted"] += m["emitted"] or 0
+        st["worker_panics"] += bool(m["worker_panicked"])
+        chk.evaluations += 1
+        s = m["scenario"]
+        chk.nontrivial.add("load:" + json.dumps([[p["n"], p["flush_after"], p.get("via_guard")] for p in s["producers"]] + [s["nk"], s["interval_us"]]))
+
+
+# --------------------------------------------------------------------------------------------
 def run(prop, tier):
     chk = vlib.Check(prop, tier)
     chk.rule = ("evaluations = TLC-generated histories (merge / flush / guard create, mutate, drop; every history up to the "
@@ -249,6 +296,7 @@ def run(prop, tier):
     rng = random.Random(chk.seed * 7919 + 10)
     run_T(chk, prop, gen_scen(rng, 30 if tier == "quick" else 600))
     run_T_mutex(chk, prop, gen_mx(rng, 40 if tier == "quick" else 800))
+    run_T_load(chk, prop, gen_load(rng, 10 if tier == "quick" else 150))
     return chk.finish()
 
 
@@ -267,6 +315,13 @@ def replay(prop, path):
         return 1 if bad else 0
     tp = os.path.join(chk.dir, "trace.ndjson")
     vlib.write_ndjson(tp, rp["trace"])
+    if rp.get("kind") == "load":
+        r = vlib.validate_trace(SPECD, "WorkerCountTrace", "WorkerCountTrace.cfg", tp)
+        log("stored trace:", "ACCEPTED" if r.accepted else f"REJECTED at line {r.line}: {r.event}")
+        scen = [dict(rp["scenario"], id=i + 1, seed=rp["scenario"].get("seed", 0) + i) for i in range(10)]
+        run_T_load(chk, prop, scen, tag="replay")
+        log("re-run of the scenario on the current tree (10 seeds):", "REPRODUCED" if chk.violations else "passes")
+        return 1 if chk.violations else 0
     if rp.get("kind") == "mutexrace":
         r = vlib.validate_trace(SPECD, "MutexTrace", "MutexTrace.cfg", tp)
         log("stored trace:", "ACCEPTED" if r.accepted else f"REJECTED at line {r.line}: {r.event}")
